@@ -55,7 +55,7 @@ Print Assumptions drift_bounded.
 (* ---------------- value level, binary64 instance (the arithmetic that actually runs) ---------------- *)
 (* For a float-typed hyperparameter the binary64 result is never below min nor above max, whatever the
    rounding of the product did; likewise over any number of successive mutations.
-   Depends on the standard library's specification axiom of PrimFloat.ltb (FloatAxioms.ltb_spec). *)
+   Depends on the specification of PrimFloat.ltb that the standard library assumes (ltb_spec). *)
 Theorem float_mutate_in_range : forall (p : param PrimFloat.float) (u v : PrimFloat.float),
   p_int p = false -> PrimFloat.ltb (p_max p) (p_min p) = false ->
   PrimFloat.ltb (mutate_value FOps p u v) (p_min p) = false /\
@@ -116,6 +116,27 @@ Theorem invariant_over_histories :
 Proof. exact @pop_run_inv. Qed.
 Print Assumptions invariant_over_histories.
 
+(* The property in one statement. *)
+Theorem property_after_any_history :
+  forall (T : Type) (O : numops T) (pop : list (agent T)) (ops : list (pop_op T))
+         (i : nat) (a : agent T) (k : nat) (u : T) (h : hpent T) (v : T),
+  Forall Inv pop ->
+  nth_error (pop_run O pop ops) i = Some a ->
+  nth_error (a_hps a) k = Some h -> getv (a_vals a) (hp_name h) = Some v ->
+  let a' := rl_hp_mutation O a k u in
+  let nv := mutate_value O (hp_par h) u v in
+  getv (a_vals a') (hp_name h) = Some nv /\
+  (forall m, m <> hp_name h -> getv (a_vals a') m = getv (a_vals a) m) /\
+  a_mut a' = Some (hp_name h) /\
+  (forall o', In o' (a_opts a') -> o_cfg_lr o' = hp_name h ->
+      o_wlr o' = nv /\ Forall (fun g => g = nv) (o_groups o')) /\
+  Coherent a' /\
+  nth_error (pop_step O (pop_run O pop ops) (MutOne i k u)) i = Some a' /\
+  (forall j, j <> i ->
+      nth_error (pop_step O (pop_run O pop ops) (MutOne i k u)) j = nth_error (pop_run O pop ops) j).
+Proof. exact @property_after_any_history_lemma. Qed.
+Print Assumptions property_after_any_history.
+
 (* Architecture / parameter / activation mutations (which re-create every optimizer from the attributes)
    move no hyperparameter and, under the invariant, no learning rate of any param group. *)
 Theorem other_mutations_keep_learning_rates :
@@ -126,6 +147,13 @@ Theorem other_mutations_keep_learning_rates :
              length (o_groups o') = length (o_groups o) /\ a_vals (other_mutation a) = a_vals a.
 Proof. exact @other_mutation_keeps_lrs. Qed.
 Print Assumptions other_mutations_keep_learning_rates.
+
+(* _registry_init accepts a configuration exactly when every configured name is an attribute of the agent *)
+Theorem registry_init_guard :
+  forall (T : Type) (vals : list (name * T)) (hps : list (hpent T)),
+  registry_init_ok vals hps = true <-> (forall h, In h hps -> exists v, getv vals (hp_name h) = Some v).
+Proof. exact @registry_init_guard_lemma. Qed.
+Print Assumptions registry_init_guard.
 
 (* a population as create_population builds it satisfies the invariant: the computed registry check,
    empty caches, optimizers created with the attribute values *)
